@@ -241,7 +241,7 @@ def gen_c04(rnd, n, thorough=False):
                 S, N = layout[rnd.randrange(k)]
             R = S * N
             e = rnd.pick(['full', 'degenerate', 'substep', 'straddle_now', 'straddle_ret', 'future', 'past',
-                          'from0', 'reversed', 'random', 'edge_now', 'edge_ret', 'best_bands'])
+                          'from0', 'reversed', 'reversed_future', 'reversed_past', 'random', 'edge_now', 'edge_ret', 'best_bands'])
             if e == 'full':
                 fr, un = now - R, now
             elif e == 'degenerate':
@@ -260,6 +260,10 @@ def gen_c04(rnd, n, thorough=False):
                 fr, un = 0, rnd.pick([0, now, now - R, now - R - 1, 2 ** 32 - 1])
             elif e == 'reversed':
                 un = now - rnd.randint(1, R); fr = un + rnd.randint(1, 3)
+            elif e == 'reversed_future':      # inverted AND wholly in the future: still an error
+                un = now + rnd.randint(1, 20); fr = un + rnd.randint(1, 10)
+            elif e == 'reversed_past':        # inverted AND wholly before the retention: still an error
+                fr = now - R - rnd.randint(1, 20); un = fr - rnd.randint(1, 30)
             elif e == 'edge_now':
                 fr = now + rnd.randint(-1, 1); un = fr + rnd.randint(0, 2)
             elif e == 'edge_ret':
